@@ -92,9 +92,22 @@ fn copy_treap(t: &Treap<It>) -> Treap<It> {
     Treap { root: copy_node(&t.root) }
 }
 
+/// `val >= 4` encodes "value val-4, carrying a pending modification (add 1)": a consistent one-element
+/// subtree whose tag has nobody to go to.  A correct treap pushes a node before it adopts children, which
+/// discards such a tag; one that does not would apply it to neighbours it was never attached to.
+fn make_item(id: u8, val: u8) -> It {
+    if val >= 4 {
+        let mut it = It::new(id, val - 4);
+        it.tag = MODS[0];
+        it
+    } else {
+        It::new(id, val)
+    }
+}
+
 fn single(id: u8, val: u8, prio: u32) -> Treap<It> {
     // struct literal: no priority is drawn from the crate's generator
-    Treap { root: Some(Box::new(Node { item: It::new(id, val), priority: prio, left: None, right: None })) }
+    Treap { root: Some(Box::new(Node { item: make_item(id, val), priority: prio, left: None, right: None })) }
 }
 
 fn for_each_node(n: &Option<Box<Node>>, f: &mut dyn FnMut(&Node)) {
@@ -163,6 +176,8 @@ struct Sys {
     /// Some(p0): the priority a fresh thread's first node creation draws (controlled insert_at)
     p0: Option<u32>,
     vals: u8,
+    /// also create nodes whose item carries a stale pending tag
+    dirty: bool,
 }
 
 static UNCONTROLLED_DRAWS: AtomicU64 = AtomicU64::new(0);
@@ -366,7 +381,7 @@ impl System for Sys {
         let nlev = Self::levels(s).len() as u8;
         if total < self.max_nodes && s.slots.len() < self.max_slots {
             for pc in 1..=2 * nlev + 1 {
-                for val in 0..self.vals {
+                for val in (0..self.vals).chain(if self.dirty { Some(4) } else { None }) {
                     v.push(Act::New(pc, val));
                 }
             }
@@ -400,7 +415,7 @@ impl System for Sys {
                 let pcs: Vec<u8> = if self.p0.is_some() { (1..=2 * nlev + 1).collect() } else { vec![2 * nlev + 1] };
                 for pos in 0..=len {
                     for &pc in &pcs {
-                        for val in 0..self.vals {
+                        for val in (0..self.vals).chain(if self.dirty { Some(4) } else { None }) {
                             v.push(Act::InsertAt(i, pos, pc, val));
                         }
                     }
@@ -456,7 +471,7 @@ impl System for Sys {
                 let id = Self::fresh_id(s);
                 // existing levels are 2,4,…: pc itself is the new node's priority
                 s.slots.push(single(id, val, pc as u32));
-                s.models.push(vec![(id, val)]);
+                s.models.push(vec![(id, val % 4)]);
                 out = 0;
             }
             Act::Merge(i, j) => {
@@ -523,7 +538,7 @@ impl System for Sys {
                             n.priority = (exp as i64 + (n.priority as i64 - pc)) as u32;
                         });
                     }
-                    s.slots[i].insert_at(pos, It::new(id, val));
+                    s.slots[i].insert_at(pos, make_item(id, val));
                     note_draws(1);
                     let mut drawn = None;
                     for_each_node(&s.slots[i].root, &mut |n| {
@@ -537,11 +552,11 @@ impl System for Sys {
                         UNCONTROLLED_DRAWS.fetch_add(1, Ordering::Relaxed);
                     }
                 } else {
-                    s.slots[i].insert_at(pos, It::new(id, val));
+                    s.slots[i].insert_at(pos, make_item(id, val));
                     note_draws(1);
                     UNCONTROLLED_DRAWS.fetch_add(1, Ordering::Relaxed);
                 }
-                s.models[i].insert(pos, (id, val));
+                s.models[i].insert(pos, (id, val % 4));
                 out = 0;
             }
             Act::RemoveAt(i, pos) => {
@@ -1158,7 +1173,7 @@ fn menu_case(hist: Hist, n: usize, offset: usize) -> Result<MenuOk, String> {
 // ---------------------------------------------------------------------------------------------
 
 fn sys_for(mode: Mode, n: usize, p0: Option<u32>) -> Sys {
-    Sys { max_nodes: n, max_slots: 3, mode, p0, vals: 2 }
+    Sys { max_nodes: n, max_slots: 3, mode, p0, vals: 2, dirty: true }
 }
 
 /// Some(_) iff the generator is per-thread and deterministic (two fresh threads and the oracle thread
@@ -1254,19 +1269,24 @@ fn main() {
     run.cov("insert_at_priority_controlled", p0.is_some());
 
     // (nodes, depth bound)
-    let plan: Vec<(usize, Option<usize>)> = match (mode, quick) {
-        (Mode::C03, true) => vec![(2, None), (3, None), (4, None), (5, Some(6))],
-        (Mode::C03, false) => vec![(2, None), (3, None), (4, None), (5, None), (6, Some(6))],
-        (Mode::C16, true) => vec![(2, None), (3, None), (4, None), (5, Some(5))],
-        (Mode::C16, false) => vec![(2, None), (3, None), (4, None), (5, Some(8)), (6, Some(6))],
+    // (nodes, depth bound, also create nodes that carry a stale pending tag)
+    let child = std::env::var("VCORE_CHILD").is_ok();
+    let plan: Vec<(usize, Option<usize>, bool)> = match (mode, quick) {
+        // the second-profile child repeats a reduced plan
+        (Mode::C03, true) if child => vec![(2, None, true), (3, None, true), (4, Some(7), false)],
+        (Mode::C03, true) => vec![(2, None, true), (3, None, true), (4, Some(5), true), (4, None, false), (5, Some(6), false)],
+        (Mode::C03, false) => vec![(2, None, true), (3, None, true), (4, None, true), (5, None, false), (6, Some(6), false)],
+        (Mode::C16, true) => vec![(2, None, true), (3, None, true), (4, None, false), (5, Some(5), false)],
+        (Mode::C16, false) => vec![(2, None, true), (3, None, true), (4, None, true), (5, Some(8), false), (6, Some(6), false)],
     };
     let mut states = 0u64;
     let mut transitions = 0u64;
     let mut outcomes = 0u64;
     let mut table = vec![];
     let mut exhaustive = true;
-    for (n, depth) in plan {
-        let sys = sys_for(mode, n, p0);
+    for (n, depth, dirty) in plan {
+        let mut sys = sys_for(mode, n, p0);
+        sys.dirty = dirty;
         let cfg = ExploreCfg { max_depth: depth, max_states: 25_000_000, wall_cap_s: if quick { 40.0 } else { 1200.0 } };
         let t0 = std::time::Instant::now();
         let r = explore(&sys, &cfg);
@@ -1276,7 +1296,7 @@ fn main() {
         if depth.is_none() && !r.closed {
             exhaustive = false;
         }
-        table.push(json!({"max_nodes": n, "depth_bound": depth, "wall_s": (t0.elapsed().as_secs_f64() * 100.0).round() / 100.0, "result": r.to_json()}));
+        table.push(json!({"max_nodes": n, "depth_bound": depth, "nodes_with_stale_tags": dirty, "wall_s": (t0.elapsed().as_secs_f64() * 100.0).round() / 100.0, "result": r.to_json()}));
         if let Some(f) = &r.violation {
             let sig = format!("explore:N={}:{}", n, serde_json::to_string(&f.history).unwrap());
             // a defect that draws priorities of its own makes the outcome depend on where the thread's
